@@ -116,6 +116,8 @@ def reweight_case(draw, tier):
     d['all_configs'] = draw(st.booleans())
     d['api'] = draw(st.sampled_from(['function', 'function', 'method', 'corr']))
     d['then'] = draw(st.sampled_from(['none', 'add', 'radd', 'rmul', 'sin', 'mul', 'matrix']))
+    # undefined timeslices of a correlator (api 'corr'): number of None entries in front of every observable and at the end
+    d['gaps'] = draw(st.lists(st.sampled_from([0, 0, 1, 2]), min_size=len(d['obs']) + 1, max_size=len(d['obs']) + 1))
     return d
 
 
@@ -131,10 +133,23 @@ def reweight_oracle(spec):
     if api == 'method':
         res = [o.reweight(w, all_configs=ac) if ac else o.reweight(w) for o in objs]
     elif api == 'corr':
-        corr = pe.Corr(objs) if len(objs) > 1 else pe.Corr(objs + objs)
+        cobjs = objs if len(objs) > 1 else objs + objs
+        gaps = list(spec.get('gaps') or [0] * (len(objs) + 1))
+        gaps = gaps[:len(objs)] + [0] * (len(cobjs) - len(objs)) + gaps[len(objs):]
+        content, pos = [], []
+        for g, o in zip(gaps, cobjs):
+            content += [None] * g
+            pos.append(len(content))
+            content.append(o)
+        content += [None] * gaps[-1]
+        corr = pe.Corr(content)
         rc = corr.reweight(w, all_configs=ac)
-        require(isinstance(rc, pe.Corr) and rc.T == corr.T, 'Corr.reweight must return a Corr of the same T')
-        res = [rc.content[t][0] for t in range(len(objs))]
+        require(isinstance(rc, pe.Corr) and rc.T == corr.T, 'Corr.reweight must return a Corr of the same T', getattr(rc, 'T', None), corr.T)
+        for t in range(corr.T):
+            require((rc.content[t] is None) == (content[t] is None),
+                    'Corr.reweight: timeslice %d is %s, the input timeslice is %s' % (t, 'undefined' if rc.content[t] is None else 'defined',
+                                                                                       'undefined' if content[t] is None else 'defined'))
+        res = [rc.content[pos[k]][0] for k in range(len(objs))]
     else:
         res = pe.reweight(w, objs, all_configs=ac) if ac or spec['then'] != 'none' else pe.reweight(w, objs)
         require(isinstance(res, list) and len(res) == len(objs), 'reweight must return one result per observable')
@@ -167,6 +182,8 @@ def reweight_oracle(spec):
     require(all(o.reweighted is False or o.reweighted == False for o in objs), 'reweight changed the flag of its input')  # noqa: E712
     nt = any(not_prefix(spec['w'], o) for o in spec['obs'])
     labs = ['api:' + api, 'all_configs:%s' % ac, 'then:' + spec['then']]
+    if api == 'corr' and any(spec.get('gaps') or []):
+        labs.append('corr:undefined_timeslices')
     for o in spec['obs']:
         labs.append('missing_replica' if len(o['chains']) < len(spec['w']['chains']) else 'all_replicas')
         for c in o['chains']:
@@ -187,7 +204,8 @@ def correlate_case(draw, tier):
         c['data'] = draw(gen.recipe(len(c['idl']), kinds=('white', 'ar1', 'count', 'list')))
         c['form'] = draw(gen.idl_form())
     return {'a': {'chains': a, 'cov': []}, 'b': {'chains': b, 'cov': []}, 'rw': draw(st.sampled_from(['none', 'none', 'a', 'b'])),
-            'api': draw(st.sampled_from(['function', 'corr_obs', 'corr_corr']))}
+            'api': draw(st.sampled_from(['function', 'corr_obs', 'corr_corr'])),
+            'gaps': draw(st.lists(st.sampled_from([0, 0, 1, 2]), min_size=3, max_size=3)), 'pgap': draw(st.integers(0, 3))}
 
 
 def correlate_oracle(spec):
@@ -199,12 +217,30 @@ def correlate_oracle(spec):
         b.reweighted = True
     if spec['api'] == 'function':
         r = pe.correlate(a, b)
-    elif spec['api'] == 'corr_obs':
-        rc = pe.Corr([a, a]).correlate(b)
-        r = rc.content[1][0]
     else:
-        rc = pe.Corr([a, a]).correlate(pe.Corr([b, b]))
-        r = rc.content[0][0]
+        # correlators with undefined timeslices: [None]*g0 + [a] + [None]*g1 + [a] + [None]*g2
+        g = list(spec.get('gaps') or [0, 0, 0])
+        ca = [None] * g[0] + [a] + [None] * g[1] + [a] + [None] * g[2]
+        pos = [g[0], g[0] + 1 + g[1]]
+        if spec['api'] == 'corr_obs':
+            rc = pe.Corr(ca).correlate(b)
+            undef = [x is None for x in ca]
+        else:
+            cb = [b] * len(ca)
+            pg = spec.get('pgap', 0)
+            if pg == 1:
+                cb[pos[0]] = None          # the partner is undefined where the correlator is defined
+            elif pg == 2 and len(ca) > 2:
+                cb[[t for t in range(len(ca)) if t not in pos][0]] = None
+            if all(x is None or y is None for x, y in zip(ca, cb)) or sum(y is not None for y in cb) < 1:
+                cb = [b] * len(ca)
+            rc = pe.Corr(ca).correlate(pe.Corr(cb))
+            undef = [x is None or y is None for x, y in zip(ca, cb)]
+        require(isinstance(rc, pe.Corr) and rc.T == len(ca), 'Corr.correlate must return a Corr of the same T', getattr(rc, 'T', None), len(ca))
+        for t in range(len(ca)):
+            require((rc.content[t] is None) == undef[t], 'Corr.correlate: timeslice %d is %s, expected %s'
+                    % (t, 'undefined' if rc.content[t] is None else 'defined', 'undefined' if undef[t] else 'defined'))
+        r = rc.content[pos[1]][0]
     da, db = sample_dict(spec['a']), sample_dict(spec['b'])
     rf = ref_from_dicts({n: {c: da[n][c] * db[n][c] for c in da[n]} for n in da},
                         {n: max(abs(v) for v in da[n].values()) * max(abs(v) for v in db[n].values()) for n in da})
@@ -254,7 +290,7 @@ def merge_oracle(spec):
 
 
 REJECT = ['correlate_replica_subset', 'cfg_missing_in_w', 'replica_missing_in_w', 'cov_in_obs', 'other_ensemble', 'correlate_idl', 'correlate_names',
-          'correlate_cov', 'correlate_len', 'merge_dup', 'merge_cov', 'multi_ensemble_weight']
+          'correlate_cov', 'correlate_len', 'merge_dup', 'merge_dup_far', 'merge_cov', 'multi_ensemble_weight']
 
 
 @st.composite
@@ -328,6 +364,15 @@ def reject_oracle(spec):
         if kind == 'merge_dup':
             c = wsp['chains'][k % len(wsp['chains'])]
             return pe.merge_obs([a, build_obs({'chains': [c], 'cov': []})])
+        if kind == 'merge_dup_far':
+            # three or more inputs, the duplicated replica is not in neighbouring list entries
+            c = wsp['chains'][k % len(wsp['chains'])]
+            e = c['name'].split('|')[0]
+            dup = build_obs({'chains': [c], 'cov': []})
+            mids = [pe.Obs([np.arange(6.0 + j) * 0.1], ['%s|zz_mid%d' % (e, j)]) for j in range(1 + (k // 2) % 3)]
+            first = dup if k % 2 else a
+            last = build_obs({'chains': [c], 'cov': []}) * 1.0
+            return pe.merge_obs([first] + mids + [last])
         if kind == 'merge_cov':
             e = wsp['chains'][0]['name'].split('|')[0]
             o2 = pe.Obs([np.arange(7.0)], [e + '|zz_extra']) + pe.cov_Obs(0.3, 0.1, 'syst')
